@@ -327,8 +327,10 @@ theorem getDerivativeSpline_ok (o o' : Obj K) (tol : K) (dir : ℕ)
             · exact absurd hmk (by simp)
             · split at hmk
               · exact absurd hmk (by simp)
-              · injection hmk with hmk
-                subst hmk
-                exact ⟨rfl, rfl, rfl⟩
+              · split at hmk
+                · exact absurd hmk (by simp)
+                · injection hmk with hmk
+                  subst hmk
+                  exact ⟨rfl, rfl, rfl⟩
 
 end Splipy
